@@ -132,6 +132,42 @@ reg('C13', 'exploration',
     TB + 'Finite viscosity/tensor alphabets; the maps are linear so basis + pair tensors identify the formula.',
     'exhaustive sweep of overloads x precision combinations x viscosity grid against __float128 reference', 'DESIGN.md section 7 C13')
 
+reg('C10', 'exploration',
+    'Bounded exhaustive exploration of every construction path of Direction/PlanarDirection (components, array, vector, the three Set '
+    'forms, Vector::Direction(), 2-D<->3-D, cross product, construction from every vector quantity) x 3 numeric types over ALL integer '
+    'vectors of {-6..6}^D, near-degenerate vectors (1, 2^-k, ..) for every k up to the mantissa width, at binades spread over the whole '
+    'range in which the squared length neither overflows nor underflows, and zero vectors of both signs; unit length to 4 eps (norm in '
+    '__float128), parallel/same sense, bitwise power-of-two scale invariance, all paths bitwise identical; every vector-valued quantity '
+    'type (17, discovered by shape): Magnitude() type and value, typed component accessors, magnitude*direction and Q(magnitude, '
+    'direction) reconstruction.',
+    TB + 'Finite direction lattice and binade set (every 32nd binade quick, every 8th thorough).',
+    'bounded exhaustive enumeration of construction paths x integer/near-degenerate vectors x binades against __float128 norm oracle', 'DESIGN.md section 7 C10')
+reg('C15', 'exploration',
+    'Numbers: thorough enumerates ALL 2^32 float bit patterns (every finite normal one is printed, analysed and parsed back); quick every '
+    '4093rd; for double and long double every notation boundary with 1024/4096 neighbours on each side, every power of two and ten with '
+    'neighbours, extremes and 2^16/2^22 stratified bit patterns: digit count = max_digits10+1, fixed iff 0.001 <= |x| < 10000 decided '
+    'exactly, 0 for zeros, bit-identical parse-back. Composite: every quantity type, the 4 vector/tensor classes x 3 numeric types, '
+    'standard form and every unit: number texts equal PhQ::Print(c_i) in declared order, unit abbreviation, JSON validated by an '
+    'independent recursive-descent parser (fields, key order), XML/YAML balance, operator<< == Print().',
+    TB + 'glibc strtof/strtod/strtold and printf are the conversion engines under both the library and the oracle; the oracle checks the '
+    'text against the exact real-number conditions of the statement, not against another printer.',
+    'exhaustive bit-pattern enumeration (float) + boundary-neighbourhood enumeration against exact real-number oracle', 'DESIGN.md section 7 C15')
+reg('C16', 'exploration',
+    'Exhaustive over the configuration space: every quantity type and the 4 vector/tensor classes x all 6 ordered numeric-type pairs x '
+    '{converting construction, converting assignment into a non-zero target, assignment twice}, every slot compared bitwise with the '
+    'plain static_cast of the same slot of the source for slot-distinct values that are not representable in the narrower type; '
+    'widen-then-narrow identity; directions within 2 ulp and of unit length.',
+    TB + 'Conversions are per-slot casts with no data-dependent branches, so a fixed slot-distinct alphabet identifies truncated, permuted, dropped or accumulated slots.',
+    'exhaustive configuration sweep of converting members against plain-cast reference', 'DESIGN.md section 7 C16', thorough=False)
+reg('C17', 'model_checking',
+    'Explicit-state model checking on the real objects: for every quantity type x 3 numeric types, breadth-first search with state '
+    'hashing over histories of mutator/accessor operations (SetValue, MutableValue assignment, per-slot mutators, copy-assign, memcpy '
+    'out/in as array of numbers, array-of-quantities view) over a 3-value alphabet, to closure for 1-3 component types and to depth 3/4 '
+    'for 6/9 component types, with a plain std::array as reference model compared after every transition (Value() and raw memory image); '
+    'plus the static layout facts (sizeof, alignof, trivially copyable, standard layout, not polymorphic) and Zero() for every instance.',
+    TB + 'State = bit pattern of the stored numbers (no hidden state is assumed: the sizeof fact checked alongside rules it out).',
+    'explicit-state BFS with state hashing over operation histories of the real objects against an array reference model', 'DESIGN.md section 7 C17')
+
 PENDING = 'check not built yet in this session (planned, see DESIGN.md section 7); not a statement that model checking cannot apply'
 
 
